@@ -41,7 +41,11 @@ package annotations
 //@ loop 0 invariant forall(k, 0, _n, implies(holder.attributes[k].Name == attribute, countName(holder, attribute, k) < countName(holder, attribute, _n) && *attributes[countName(holder, attribute, k)] == holder.attributes[k]))
 
 // GetCastProperty uses reflection: outside the verified subset, contract assumed.
+// propLen/propAt: the string-list view of a property value (the attribute's property map is immutable after parsing).
+//@ ufunc propLen(props map[string]any, property string) int
+//@ ufunc propAt(props map[string]any, property string, i int) string
 //@ func GetCastProperty trusted
+//@ ensures? list: implies(result0 != nil && result1 == nil, len(*result0) == propLen(attrib.Properties, property) && forall(j, 0, len(*result0), (*result0)[j] == propAt(attrib.Properties, property, j)))
 //@ ensures implies(result1 != nil, result0 == nil)
 //@ ensures implies(result0 != nil, fresh(result0))
 //@ ensures implies(!indom(attrib.Properties, property), result0 == nil && result1 == nil)
